@@ -188,6 +188,14 @@ func cmdCheck(args []string) int {
 		safetySet[f] = true
 	}
 	seenFn := map[string]bool{}
+	// "pkg.Func:kind1,kind2" restricts the claim to obligations whose kind starts with one of the listed prefixes
+	kindFilter := map[string][]string{}
+	for i, f := range pc.Funcs {
+		if k := strings.Index(f, ":"); k >= 0 {
+			kindFilter[f[:k]] = strings.Split(f[k+1:], ",")
+			pc.Funcs[i] = f[:k]
+		}
+	}
 	for _, f := range append(append([]string{}, pc.Funcs...), pc.Safety...) {
 		if seenFn[f] {
 			continue
@@ -215,6 +223,18 @@ func cmdCheck(args []string) int {
 			continue
 		}
 		fnClass[f] = "P"
+		if kf, ok := kindFilter[f]; ok {
+			var keep []*Obligation
+			for _, o := range r.Obls {
+				for _, k := range kf {
+					if strings.HasPrefix(o.Kind, k) || o.Kind == "cover" {
+						keep = append(keep, o)
+						break
+					}
+				}
+			}
+			r.Obls = keep
+		}
 		addRep(r, safetySet[f])
 	}
 	for _, ln := range pc.Lemmas {
